@@ -216,11 +216,30 @@ def chromTreeBytes (chroms : List (List Nat × Nat × Nat)) : List Nat :=   -- (
   [1, 0] ++ le 2 chroms.length ++
   chroms.flatMap fun c => c.1 ++ List.replicate (keySize - c.1.length) 0 ++ le 4 c.2.1 ++ le 4 c.2.2
 
+/-! Compression: zlib is not modelled. For a compressed file the model is handed, for every block in file order
+    (data blocks, then each zoom level's blocks), the compressed bytes found in the real file together with what an
+    independent inflater makes of them; it checks that the inflated bytes are exactly the section it would have
+    written, and lays the file out with the compressed bytes in its place (offsets, sizes, index, and the
+    uncompressed-buffer size of the header = the largest uncompressed section). -/
+abbrev Blobs := Option (List (List Nat × List Nat))
+
+/-- substitutes the next blobs for the sections' bytes; `ok` stays true while every blob inflates to its section -/
+def substBlobs : Blobs → List Sec → List Sec × Blobs × Bool
+  | none, secs => (secs, none, true)
+  | some bl, [] => ([], some bl, true)
+  | some [], _ :: _ => ([], some [], false)
+  | some (b :: bl), s :: secs =>
+    let r := substBlobs (some bl) secs
+    ({ s with bytes := b.1 } :: r.1, r.2.1, r.2.2 && b.2 == s.bytes)
+
+def maxLen (secs : List Sec) : Nat := secs.foldl (fun m s => max m s.bytes.length) 0
+
 /-- input: chromosomes in first-appearance order with their sizes and values -/
-def writeBigWig (o : Opts) (input : List (List Nat × Nat × List V)) : List Nat :=
+def writeBigWigZ (o : Opts) (z : Blobs) (input : List (List Nat × Nat × List V)) : List Nat × Bool :=
   let preData := 64 + 240 + 40 + 8
   -- data sections, chromosome ids in order of appearance
-  let dataSecs := input.zipIdx.flatMap fun (c, id) => cutSections o.itemsPerSlot id (c.2.2.length + 1) c.2.2
+  let dataSecs0 := input.zipIdx.flatMap fun (c, id) => cutSections o.itemsPerSlot id (c.2.2.length + 1) c.2.2
+  let (dataSecs, z1, ok1) := substBlobs z dataSecs0
   let (dataLeaves, dataEnd) := leavesOf dataSecs preData
   let dataBytes := dataSecs.flatMap (·.bytes)
   let chromBytes := chromTreeBytes (input.zipIdx.map fun (c, id) => (c.1, id, c.2.1))
@@ -228,19 +247,21 @@ def writeBigWig (o : Opts) (input : List (List Nat × Nat × List V)) : List Nat
   let idxBytes := indexBytes o.blockSize o.itemsPerSlot dataLeaves indexStart
   -- zoom levels (manual sizes, ascending as in the BTreeMap)
   let zoomStart := indexStart + idxBytes.length
-  let zooms := o.zoomSizes.foldl (fun (acc : List (Nat × Nat × Nat) × List Nat × Nat) size =>
+  let zooms := o.zoomSizes.foldl (fun (acc : (List (Nat × Nat × Nat) × List Nat × Nat) × Blobs × Bool × Nat) size =>
       let recs := input.zipIdx.flatMap fun (c, id) => (zoomChrom id size c.2.2 ⟨none, []⟩).out.map fun r => (id, r)
       -- sections never span chromosomes
-      let secs := input.zipIdx.flatMap fun (_, id) =>
+      let secs0 := input.zipIdx.flatMap fun (_, id) =>
         let rs := (recs.filter (·.1 = id)).map (·.2)
         cutZoomSections o.itemsPerSlot (rs.length + 1) rs
-      if secs.isEmpty then acc else              -- a level without records is not written (D4 repair)
-      let (zl, zend) := leavesOf secs acc.2.2
+      if secs0.isEmpty then acc else              -- a level without records is not written (D4 repair)
+      let (secs, z', ok') := substBlobs acc.2.1 secs0
+      let a := acc.1
+      let (zl, zend) := leavesOf secs a.2.2
       let zdata := secs.flatMap (·.bytes)
       let zidx := indexBytes o.blockSize o.itemsPerSlot zl zend
-      (acc.1 ++ [(size, acc.2.2, zend)], acc.2.1 ++ zdata ++ zidx, zend + zidx.length))
-    ([], [], zoomStart)
-  let (zoomHdrs, zoomBytes, _) := zooms
+      ((a.1 ++ [(size, a.2.2, zend)], a.2.1 ++ zdata ++ zidx, zend + zidx.length), z', acc.2.2.1 && ok', max acc.2.2.2 (maxLen secs0)))
+    (([], [], zoomStart), z1, ok1, maxLen dataSecs0)
+  let ((zoomHdrs, zoomBytes, _), zrest, ok, ubs) := zooms
   -- summary
   let allVals := input.flatMap (·.2.2)
   let bases := (allVals.map fun x => x.e - x.s).sum
@@ -249,11 +270,13 @@ def writeBigWig (o : Opts) (input : List (List Nat × Nat × List V)) : List Nat
   let sum := (allVals.map fun x => ((x.e - x.s : Nat) : Int) * x.v).sum
   let sumsq := (allVals.map fun x => ((x.e - x.s : Nat) : Int) * x.v * x.v).sum
   let header := le 4 BIGWIG_MAGIC ++ le 2 4 ++ le 2 zoomHdrs.length ++ le 8 dataEnd ++ le 8 344 ++ le 8 indexStart ++
-    le 2 0 ++ le 2 0 ++ le 8 0 ++ le 8 304 ++ le 4 0 ++ le 8 0
+    le 2 0 ++ le 2 0 ++ le 8 0 ++ le 8 304 ++ le 4 (if z.isSome then ubs else 0) ++ le 8 0
   let zoomDir := zoomHdrs.flatMap fun z => le 4 z.1 ++ le 4 0 ++ le 8 z.2.1 ++ le 8 z.2.2
   let zoomDirPad := List.replicate (240 - zoomDir.length) 0
   let summary := le 8 bases ++ f64 mn ++ f64 mx ++ f64 sum ++ f64 sumsq
-  header ++ zoomDir ++ zoomDirPad ++ summary ++ le 8 dataSecs.length ++ dataBytes ++ chromBytes ++ idxBytes ++
-    zoomBytes ++ le 4 BIGWIG_MAGIC
+  (header ++ zoomDir ++ zoomDirPad ++ summary ++ le 8 dataSecs.length ++ dataBytes ++ chromBytes ++ idxBytes ++
+    zoomBytes ++ le 4 BIGWIG_MAGIC, ok && (zrest.map (·.isEmpty)).getD true)
+
+def writeBigWig (o : Opts) (input : List (List Nat × Nat × List V)) : List Nat := (writeBigWigZ o none input).1
 
 end BW
